@@ -82,7 +82,7 @@ def check_mustpass(ctx, fn, rule='R-MUSTPASS', need_endlib=True):
                 lab = lab.child('sub') if lab.child('sub') is not None and lab.child('sub').k == 'CaseStmt' else None
     if need_endlib and not endlib_blocks:
         raise AnalysisBroken('%s: no `case ENDLIB` label inside the read loop' % fn.qn)
-    rets = sorted((n for n in fn.walk() if n.k == 'ReturnStmt'), key=lambda n: n.id)
+    rets = sorted((n for n in fn.walk() if n.k == 'ReturnStmt'), key=lambda n: n.pos)
     cnt = 0
     errparam = fn.param('error_code')
     for i, r in enumerate(rets):
@@ -96,7 +96,7 @@ def check_mustpass(ctx, fn, rule='R-MUSTPASS', need_endlib=True):
             dom = w is not None and any(eb == w[0] or eb in g.dom.get(w[0], ()) for eb in endlib_blocks)
             ctx.check(dom, rule, ikey, r.loc(), 'return inside the read loop is dominated by the ENDLIB arm',
                       'a return inside the read loop (outside the record-error branch) is not dominated by `case ENDLIB`: a file cut before ENDLIB could be returned as success')
-        elif r.id in err_nodes or r.id > max(inl):
+        elif r.id in err_nodes or r.pos > max(n_.pos for n_ in L.walk()):
             cnt += 1
             if not need_endlib and r.id not in err_nodes:
                 continue  # post-loop return of a query reached only through its own success break
@@ -191,8 +191,8 @@ def check_short_read_tests(ctx, fn, rule='R-ERRCHK.fread'):
         want = lin_of(fn, c.args[2], at=c, opaque={res})
         # find the first comparison after the call that mentions res (directly or through defs)
         found = None
-        for n in sorted(fn.walk(), key=lambda n: n.id):
-            if n.id <= c.id or n.k != 'BinaryOperator' or n.op not in ('<', '!=', '>', '>=', '<=', '=='):
+        for n in sorted(fn.walk(), key=lambda n: n.pos):
+            if n.pos <= c.pos or n.k != 'BinaryOperator' or n.op not in ('<', '!=', '>', '>=', '<=', '=='):
                 continue
             if not g.node_dominates(c, n):
                 continue
@@ -380,7 +380,7 @@ def null_hazards(g):
                 b = sc(x.child('sub'))
             elif x.k == 'MemberExpr' and x.arrow:
                 b = sc(x.child('base'))
-            if b is not None and lvalue_key(b) == key and x.id > st.id:
+            if b is not None and lvalue_key(b) == key and x.pos > st.pos:
                 derefs.append(x)
         wst = cfg.where_node(st)
         for d in derefs:
@@ -408,7 +408,7 @@ def check_callee_null_hazards(ctx, db, readers):
     has just set to NULL (error path of a short read): for every call from the readers to a function with such a hazard, the
     literal arguments are matched against the parameter conditions of the hazardous dereference."""
     n = 0
-    for f in readers:
+    for f, _w in db.with_helpers(list(readers)):         # the readers and the file-local helpers they call
         for c in f.walk():
             if c.k != 'CallExpr' or not (c.callee or '').startswith('gdstk::'):
                 continue
